@@ -739,7 +739,7 @@ func runDpkg(r *hx.Run, rnd *hx.Rand, cfg hx.Config) {
 		r.Op("mime "+hx.Hex([]byte(s)), mimeCalls([]byte(s)), true)
 	}
 
-	nDB := cfg.N(300, 10000)
+	nDB := cfg.N(300, 4000)
 	for i := 0; i < nDB && !r.Stop(); i++ {
 		n := r0(rnd, i)
 		o := dbOpts{allowDup: rnd.Chance(1, 10), allowSrcDisagree: rnd.Chance(1, 10)}
@@ -845,7 +845,7 @@ func countSer(r *hx.Run, o serOpts) {
 // runDpkgLayers: several databases per layer at arbitrary paths, decoys, md5sums hints.
 func runDpkgLayers(r *hx.Run, rnd *hx.Rand, cfg hx.Config) {
 	dirs := []string{"var/lib/dpkg", "", "opt/chroot/var/lib/dpkg", "a", "usr/local/var/lib/dpkg", "x/y/z/w", "var/lib/dpkg/nested", "info", "status.d"}
-	for i := 0; i < cfg.N(60, 2000) && !r.Stop(); i++ {
+	for i := 0; i < cfg.N(60, 800) && !r.Stop(); i++ {
 		k := 1 + rnd.Intn(3)
 		perm := append([]string(nil), dirs...)
 		for a := len(perm) - 1; a > 0; a-- {
